@@ -44,8 +44,12 @@ def run_agg(vecs, via, rng, rollups=False):
         if via == "compare":
             r = qartod.qartod_compare(arrs)
         else:
-            crs = [CollectedResult(stream_id="s%d" % i, package="qartod", test="t%d" % i, function=qartod.gross_range_test,
+            # the same test on several streams and different tests on one stream: every result counts
+            crs = [CollectedResult(stream_id="s%d" % (i // 2), package="qartod", test="t%d" % (i % 2), function=qartod.gross_range_test,
                                    results=a) for i, a in enumerate(arrs)]
+            if len(arrs) >= 2 and rng.random() < 0.5:
+                crs = [CollectedResult(stream_id="s%d" % i, package=["qartod", "argo", "axds"][i % 3], test="same_test",
+                                       function=qartod.gross_range_test, results=a) for i, a in enumerate(arrs)]
             if rollups:
                 marks = [rng.random() < 0.6 for _ in arrs]
                 crs = [CollectedResult(stream_id="", package="qartod", test="rollup%d" % i, function=qartod.aggregate, results=a)
